@@ -3,6 +3,7 @@ package annotations
 import (
 	"go/ast"
 	"go/token"
+	"go/types"
 	"regexp"
 	"strings"
 
@@ -539,7 +540,7 @@ func ReadAllAnnotations(
 		// Build import map for this file
 		imports := &util.ImportMap{}
 		for _, imp := range file.Imports {
-			imports.Add(imp, pass.Pkg)
+			imports.Add(imp, importedPackage(pass, imp))
 		}
 
 		for _, n := range file.Decls {
@@ -679,6 +680,16 @@ func ReadAllAnnotations(
 		MutableAnnotations:     mutables,
 		PackageOnlyAnnotations: packageonly,
 	}
+}
+
+// importedPackage returns the package an import spec refers to, or nil if unknown
+func importedPackage(pass *analysis.Pass, spec *ast.ImportSpec) *types.Package {
+	if pass.TypesInfo != nil {
+		if pkgName := pass.TypesInfo.PkgNameOf(spec); pkgName != nil {
+			return pkgName.Imported()
+		}
+	}
+	return nil
 }
 
 // readFieldAnnotationsForType scans struct fields for annotations (currently only @mutable)
